@@ -12,6 +12,11 @@ package supervisor
 //@ event ProcStartFailed = ret os/exec.(*Cmd).Start when r0 != nil
 //@ event ProcWaited = ret os/exec.(*Cmd).Wait
 //@ event WaiterSpawned = go supervisor.(*LocalSupervisor).Exec$1
+// os/exec: for a writer that is not an *os.File, Cmd.Wait also waits until every holder of the output pipe has closed it
+// (a forked child, a daemon outside the group) unless WaitDelay bounds that wait. C19 ("exactly one termination event" for the
+// behaviour "forks children"): the process is started with that bound, so its event does not depend on who inherited its output
+//@ event ProcStartCalled = call os/exec.(*Cmd).Start
+//@ event ProcStartedWithUnboundedOutputWait = call os/exec.(*Cmd).Start when a0.WaitDelay <= 0
 //@ event ExitEventSent = send supervisor.LocalSupervisor.events
 //@ event SignalSent = call syscall.Kill
 //@ event KillSignalSent = call syscall.Kill when a1 == syscall.SIGKILL
@@ -31,12 +36,17 @@ package supervisor
 // Exec: a process of the runtime domain is started once, recorded under its name, and gets exactly one waiter goroutine
 //@ func (*LocalSupervisor).Exec
 //@   requires req != nil
+//@   ensures [C19: the-termination-event-does-not-wait-for-whoever-inherited-the-output] delta(ProcStartedWithUnboundedOutputWait) == 0
 //@   ensures [other-domains-are-a-no-op] req.Domain != "runtime" ==> r0 == nil && delta(ProcStart) == 0 && delta(WaiterSpawned) == 0
 //@   ensures [start-failure-is-reported] delta(ProcStartFailed) == 1 ==> r0 != nil && delta(WaiterSpawned) == 0
 //@   ensures [one-waiter-per-started-process] req.Domain == "runtime" ==> delta(ProcStart) == 1 && delta(WaiterSpawned) == 1 - delta(ProcStartFailed) && (delta(WaiterSpawned) == 1 ==> r0 == nil && has(s.processMap, req.Name) && first(ProcStart) < first(WaiterSpawned))
 
 // the waiter: waits for the process, then emits exactly one termination event with either an exit status or a signal
+// C19 ("carrying its true exit status"): what Wait returns may be an error of the output copy (or the expiry of the wait bound)
+// although the process exited normally; the status is decoded from the process state whenever the process was waited for
+//@ event WaitStatusDecoded = call os.(*ProcessState).Sys
 //@ func (*LocalSupervisor).Exec$1
+//@   ensures [C19: the-status-is-the-process-state's-whatever-the-output-copy-reported] command.ProcessState != nil ==> delta(WaitStatusDecoded) == 1 && lastarg(WaitStatusDecoded, 0) == command.ProcessState
 //@   ensures [exactly-one-event-after-the-wait] delta(ProcWaited) == 1 && delta(ExitEventSent) == 1 && first(ProcWaited) < first(ExitEventSent)
 //@   ensures [status-or-signal-not-both] (lastarg(ExitEventSent, 0).Event.Signo == nil) != (lastarg(ExitEventSent, 0).Event.ExitStatus == nil)
 //@   ensures [clean-exit-is-status-zero] lastret(ProcWaited) == nil ==> lastarg(ExitEventSent, 0).Event.ExitStatus != nil && deref(lastarg(ExitEventSent, 0).Event.ExitStatus) == 0
